@@ -195,7 +195,7 @@ fn search_key(kind: &str, index: &str, fam: &str, q: &SQ, name: &str, history: &
 
 async fn search_level(fam: &c19::ColFam, index: &str, history: &[HOp], cov: &mut Cov, viol: &mut Vec<Violation>) -> Result<(), String> {
     let (kind, _, _) = c19::parse_index(index);
-    let st = c19::build_state_pub(&fam.dt, &fam.dom, index, history).await?;
+    let st = c19::build_state_pub(fam, index, history).await?;
     let ds = st.env.open(URI).await.map_err(|e| format!("open: {e}"))?;
     // uid -> (_rowid, _rowaddr)
     let mut sc = ds.scan();
@@ -358,6 +358,7 @@ pub fn run(ctx: &Ctx) -> Outcome {
         deep_fams: vec![],
         // the search-level and Sbbf parts run after the dataset-level part
         quick_budget_s: 28.0,
+        extra_items: vec![],
         rule: "dataset level: items = (column family, inexact index with parameters, stable row ids, history) x the whole predicate family scanned with and without the index; search level: every index segment x every accepted query over the domain; Sbbf: 3 sizes x 4 key types x all 1024 subsets of a 10-key universe. non-trivial = some but not all rows / keys expected",
     };
     let mut out = c19::run_plan(ctx, plan);
